@@ -6,6 +6,7 @@ package main
 import (
 	"encoding/json"
 	"fmt"
+	"net/http"
 	"strings"
 	"time"
 
@@ -20,6 +21,7 @@ import (
 	"github.com/nyaruka/goflow/flows/events"
 	"github.com/nyaruka/goflow/flows/resumes"
 	"github.com/nyaruka/goflow/flows/triggers"
+	"github.com/nyaruka/goflow/services/webhooks"
 )
 
 type NodeDef struct {
@@ -83,6 +85,7 @@ type Behaviour struct {
 	Quirks     map[string]bool `json:"quirks"`
 	Restarts   []bool          `json:"restarts,omitempty"` // C02: restart (marshal+read) before call k
 	Variant    string          `json:"variant,omitempty"`
+	Batch      bool            `json:"batch,omitempty"`
 }
 
 // ---------------------------------------------------------------------------------------------
@@ -279,12 +282,12 @@ func matTrigger(b *Behaviour, flow int, ftype string) []byte {
 	if ftype == "voice" {
 		t["call"] = M{"channel": M{"uuid": "57f1078f-88aa-46f4-a59a-948a5739c03d", "name": "Android"}, "urn": "tel:+12065551212"}
 	}
+	if b.Batch {
+		t["batch"] = true
+	}
 	switch b.Trig {
 	case "manual":
 		t["type"] = "manual"
-	case "batch":
-		t["type"] = "manual"
-		t["batch"] = true
 	case "msg":
 		t["type"] = "msg"
 		t["msg"] = M{"uuid": "c8005ee3-4628-4d76-be66-906352cb1935", "urn": "tel:+12065551212", "text": choiceWord(b.Trigch),
@@ -330,16 +333,19 @@ func resetGenerators(seed int64) {
 	random.SetGenerator(random.NewSeededGenerator(seed))
 }
 
-func newEngine(maxSteps, maxResumes int) flows.Engine {
-	b := engine.NewBuilder()
+func newEngineBuilder(maxSteps, maxResumes int) *engine.Builder {
+	b := engine.NewBuilder().
+		WithWebhookServiceFactory(webhooks.NewServiceFactory(http.DefaultClient, nil, nil, map[string]string{"User-Agent": "goflow-testing"}, 100000))
 	if maxSteps > 0 {
 		b = b.WithMaxStepsPerSprint(maxSteps)
 	}
 	if maxResumes >= 0 {
 		b = b.WithMaxResumesPerSession(maxResumes)
 	}
-	return b.Build()
+	return b
 }
+
+func newEngine(maxSteps, maxResumes int) flows.Engine { return newEngineBuilder(maxSteps, maxResumes).Build() }
 
 func loadAssets(data []byte) (flows.SessionAssets, error) {
 	src, err := static.NewSource(data)
